@@ -37,6 +37,22 @@ def body_for(req, c):
     return b['allocations'].get(c)
 
 
+def creator_of(race, start, c, row_id):
+    """Name of the request whose transaction made consumer c's record with
+    this row id appear (None if it was there at the start)."""
+    prev = start
+    for (name, kind, d) in race.points:
+        if d is None:
+            continue
+        had = prev.consumers.get(c)
+        has = d.consumers.get(c)
+        if has is not None and has['id'] == row_id and (
+                had is None or had['id'] != row_id):
+            return name
+        prev = d
+    return None
+
+
 def oracle(ctx, svc, snap, start, reqs, race, schedule):
     engc.no_server_error(reqs, race)
     c = None
@@ -53,8 +69,11 @@ def oracle(ctx, svc, snap, start, reqs, race, schedule):
             continue
         row = before.consumers.get(c)
         if g is None:
+            # "no consumer row", or the fresh record this very request
+            # created a moment ago (generation 0, nothing allocated)
             ok = row is None or (
-                c not in start.consumers and row['generation'] == 0 and
+                row['generation'] == 0 and
+                creator_of(race, start, c, row['id']) == n and
                 not any(k[0] == c for k in before.allocations))
         else:
             ok = row is not None and row['generation'] == g
